@@ -459,46 +459,10 @@ theorem invoke_flat (call : Storage → NodeId → Storage × Res Nat) (c : Node
   simp only [Bool.false_eq_true, if_false, r.eq]
   cases s; simp only at hst; subst hst; rfl
 
-/-- `exec` after its first line (the push onto `top_level_calls`) -/
-def execBody (fuel : Nat) (P : Prog) (s : Storage) (id : NodeId) : Storage × Res Bool :=
-    match alookup s.derived id with
-    | some rev =>
-      if rev.tv = s.epoch then (regDep s (.derived id) rev.tu, .ok false)
-      else
-        let s := setTv s id s.epoch
-        match anyDep (depChanged (exec fuel P)) rev.deps s with
-        | (s, .panic p) => (s, .panic p)
-        | (s, .ok false) => (regDep s (.derived id) rev.tu, .ok false)
-        | (s, .ok true) =>
-          match invoke (callVia (exec fuel P)) P s id with
-          | (s, .panic p) => (s, .panic p)
-          | (s, .ok (v, fr)) =>
-            match alookup s.derived id with
-            | none => (s, .panic .missingNode)
-            | some r' =>
-              if rev.val ≠ v then
-                let s := { s with derived := ainsert s.derived id (Rev.mk v fr.maxTu r'.tv fr.rdeps.reverse) }
-                (regDep s (.derived id) fr.maxTu, .ok true)
-              else
-                let s := { s with derived := ainsert s.derived id (Rev.mk r'.val r'.tu r'.tv fr.rdeps.reverse) }
-                (regDep s (.derived id) fr.maxTu, .ok false)
-    | none =>
-      match invoke (callVia (exec fuel P)) P s id with
-      | (s, .panic p) => (s, .panic p)
-      | (s, .ok (v, fr)) =>
-        let s := { s with derived := ainsert s.derived id (Rev.mk v fr.maxTu s.epoch fr.rdeps.reverse) }
-        (regDep s (.derived id) fr.maxTu, .ok true)
-
-def pushTop (s : Storage) (id : NodeId) : Storage :=
-  if s.stack.isEmpty then { s with topCalls := s.topCalls ++ [id], pushes := s.pushes ++ [id] } else s
-
-theorem exec_succ (fuel : Nat) (P : Prog) (s : Storage) (id : NodeId) :
-    exec (fuel + 1) P s id = execBody fuel P (pushTop s id) id := rfl
-
-/-- what a top-level execution of a call-free function does (after the push) -/
-theorem execBody_flat {P : Prog} (hflat : Flat P) (c : NodeId → Res Nat) (n : Nat) (s0 : Storage) (id : NodeId) (v : Nat)
+/-- what bringing a call-free function up to date does at top level -/
+theorem upToDate_flat {P : Prog} (hflat : Flat P) (c : NodeId → Res Nat) (n : Nat) (s0 : Storage) (id : NodeId) (v : Nat)
     (hinv0 : Inv1 P s0) (hv : evalP c P s0.srcs s0.maps (fnOf P id.fn).body id.arg = .ok v) :
-    ∃ s' b r, execBody n P s0 id = (s', .ok b) ∧ Inv1 P s' ∧ alookup s'.derived id = some r ∧ r.val = v ∧
+    ∃ (s' : Storage) (b : Bool × Nat) (r : Rev), upToDate (n + 1) P s0 id = (s', .ok b) ∧ Inv1 P s' ∧ alookup s'.derived id = some r ∧ r.val = v ∧
       s'.epoch = s0.epoch ∧ s'.srcs = s0.srcs ∧ s'.maps = s0.maps ∧ s'.poisoned = s0.poisoned ∧ r.tv = s'.epoch := by
   have hst0 := hinv0.stack
   -- installing a revision for `id` that satisfies `NodeOk` keeps the invariant
@@ -513,32 +477,31 @@ theorem execBody_flat {P : Prog} (hflat : Flat P) (c : NodeId → Res Nat) (n : 
       by_cases hid : n' = id
       · subst hid; rw [h6] at hn'; cases hn'; exact h7.congr h2 h3 h4
       · exact (hinv0.nodes n' r' (h5 n' r' hid hn')).congr h2 h3 h4
-  unfold execBody
+  simp only [upToDate]
   cases hl : alookup s0.derived id with
   | none =>
     simp only
-    obtain ⟨fr', hi, r⟩ := invoke_flat (callVia (exec n P)) c hflat s0 id v hst0 hinv0.mapsInit hv
+    obtain ⟨fr', hi, r⟩ := invoke_flat (callVia (execF (upToDate n P))) c hflat s0 id v hst0 hinv0.mapsInit hv
     simp only [hi]
     have hnode := nodeOk_fresh_exec (s := s0) r fr'.maxTu rfl rfl rfl hinv0.srcTu hinv0.mapsInit
-    refine ⟨_, true, Rev.mk v fr'.maxTu s0.epoch fr'.rdeps.reverse, rfl, ?_, ?_, rfl, ?_⟩
-    · refine hinst _ _ (by simp [regDep, hst0]) (by simp [regDep, hst0]) (by simp [regDep, hst0]) (by simp [regDep, hst0]) ?_ ?_ hnode
+    refine ⟨_, (true, fr'.maxTu), Rev.mk v fr'.maxTu s0.epoch fr'.rdeps.reverse, rfl, ?_, ?_, rfl, ?_⟩
+    · refine hinst _ _ hst0 rfl rfl rfl ?_ ?_ hnode
       · intro n' r' hne hn'
-        simp only [regDep, hst0] at hn'
         rw [alookup_ainsert_ne _ _ _ _ (Ne.symm hne)] at hn'; exact hn'
-      · simp only [regDep, hst0]; exact alookup_ainsert_self _ _ _
-    · simp only [regDep, hst0]; exact alookup_ainsert_self _ _ _
-    · simp [regDep, hst0]
+      · exact alookup_ainsert_self _ _ _
+    · exact alookup_ainsert_self _ _ _
+    · exact ⟨rfl, rfl, rfl, rfl, rfl⟩
   | some rev =>
     simp only
     have hok := hinv0.nodes id rev hl
     by_cases htv : rev.tv = s0.epoch
     · simp only [if_pos htv]
-      refine ⟨_, false, rev, rfl, ?_, ?_, ?_, ?_⟩
-      · exact hinv0.congr (by simp [regDep, hst0]) (by simp [regDep, hst0]) (by simp [regDep, hst0]) (by simp [regDep, hst0]) (by simp [regDep, hst0])
-      · simp only [regDep, hst0]; exact hl
+      refine ⟨_, (false, rev.tu), rev, rfl, ?_, ?_, ?_, ?_⟩
+      · exact hinv0.congr hst0 rfl rfl rfl rfl
+      · exact hl
       · have := hok.sound s0.srcs s0.maps c (hok.fresh_now htv)
         rw [hv] at this; cases this; rfl
-      · simp [regDep, hst0, htv]
+      · exact ⟨rfl, rfl, rfl, rfl, htv⟩
     · simp only [if_neg htv]
       have hsetTv : setTv s0 id s0.epoch = { s0 with derived := ainsert s0.derived id (Rev.mk rev.val rev.tu s0.epoch rev.deps) } := by
         simp [setTv, hl]
@@ -548,7 +511,7 @@ theorem execBody_flat {P : Prog} (hflat : Flat P) (c : NodeId → Res Nat) (n : 
         have h1 := hok.stamps d hd
         have h2 := hok.tv_le
         omega
-      obtain ⟨b, hb, hfb⟩ := anyDep_noDerived (exec n P)
+      obtain ⟨b, hb, hfb⟩ := anyDep_noDerived (dropTu (upToDate n P))
         rev.deps { s0 with derived := ainsert s0.derived id (Rev.mk rev.val rev.tu s0.epoch rev.deps) } hok.noDerived hlt
         hinv0.mapsInit
       simp only [hb]
@@ -558,55 +521,57 @@ theorem execBody_flat {P : Prog} (hflat : Flat P) (c : NodeId → Res Nat) (n : 
         have hfresh : DepsMatch s0 s0.srcs s0.maps rev.deps := hfb rfl
         have hnode : NodeOk P s0 id (Rev.mk rev.val rev.tu s0.epoch rev.deps) :=
           ⟨Nat.le_refl _, hok.noDerived, fun d hd => Nat.le_of_lt (hlt d hd), fun _ => hfresh, hok.sound⟩
-        refine ⟨_, false, Rev.mk rev.val rev.tu s0.epoch rev.deps, rfl, ?_, ?_, ?_, ?_⟩
-        · refine hinst _ _ (by simp [regDep, hst0]) (by simp [regDep, hst0]) (by simp [regDep, hst0]) (by simp [regDep, hst0]) ?_ ?_ hnode
+        refine ⟨_, (false, rev.tu), Rev.mk rev.val rev.tu s0.epoch rev.deps, rfl, ?_, ?_, ?_, ?_⟩
+        · refine hinst _ _ hst0 rfl rfl rfl ?_ ?_ hnode
           · intro n' r' hne hn'
-            simp only [regDep, hst0] at hn'
             rw [alookup_ainsert_ne _ _ _ _ (Ne.symm hne)] at hn'; exact hn'
-          · simp only [regDep, hst0]; exact alookup_ainsert_self _ _ _
-        · simp only [regDep, hst0]; exact alookup_ainsert_self _ _ _
+          · exact alookup_ainsert_self _ _ _
+        · exact alookup_ainsert_self _ _ _
         · have := hok.sound s0.srcs s0.maps c hfresh
           rw [hv] at this; cases this; rfl
-        · simp [regDep, hst0]
+        · exact ⟨rfl, rfl, rfl, rfl, rfl⟩
       | true =>
         simp only
-        obtain ⟨fr', hi, r⟩ := invoke_flat (callVia (exec n P)) c hflat
+        obtain ⟨fr', hi, r⟩ := invoke_flat (callVia (execF (upToDate n P))) c hflat
           { s0 with derived := ainsert s0.derived id (Rev.mk rev.val rev.tu s0.epoch rev.deps) } id v hst0 hinv0.mapsInit hv
         simp only [hi, alookup_ainsert_self]
         have hnode : ∀ tu, NodeOk P s0 id (Rev.mk v tu s0.epoch fr'.rdeps.reverse) := fun tu =>
           nodeOk_fresh_exec (s := s0) r tu rfl rfl rfl hinv0.srcTu hinv0.mapsInit
         by_cases hval : rev.val ≠ v
         · simp only [if_pos hval]
-          refine ⟨_, true, Rev.mk v fr'.maxTu s0.epoch fr'.rdeps.reverse, rfl, ?_, ?_, rfl, ?_⟩
-          · refine hinst _ (Rev.mk v fr'.maxTu s0.epoch fr'.rdeps.reverse) (by simp [regDep, hst0]) (by simp [regDep, hst0]) (by simp [regDep, hst0]) (by simp [regDep, hst0]) ?_ ?_ (hnode _)
+          refine ⟨_, (true, fr'.maxTu), Rev.mk v fr'.maxTu s0.epoch fr'.rdeps.reverse, rfl, ?_, ?_, rfl, ?_⟩
+          · refine hinst _ (Rev.mk v fr'.maxTu s0.epoch fr'.rdeps.reverse) hst0 rfl rfl rfl ?_ ?_ (hnode _)
             · intro n' r' hne hn'
-              simp only [regDep, hst0] at hn'
               rw [alookup_ainsert_ne _ _ _ _ (Ne.symm hne), alookup_ainsert_ne _ _ _ _ (Ne.symm hne)] at hn'; exact hn'
-            · simp only [regDep, hst0]; exact alookup_ainsert_self _ _ _
-          · simp only [regDep, hst0]; exact alookup_ainsert_self _ _ _
-          · simp [regDep, hst0]
+            · exact alookup_ainsert_self _ _ _
+          · exact alookup_ainsert_self _ _ _
+          · exact ⟨rfl, rfl, rfl, rfl, rfl⟩
         · simp only [if_neg hval]
           have hval' : rev.val = v := Decidable.of_not_not hval
-          refine ⟨_, false, Rev.mk rev.val rev.tu s0.epoch fr'.rdeps.reverse, rfl, ?_, ?_, hval', ?_⟩
-          · refine hinst _ (Rev.mk rev.val rev.tu s0.epoch fr'.rdeps.reverse) (by simp [regDep, hst0]) (by simp [regDep, hst0]) (by simp [regDep, hst0]) (by simp [regDep, hst0]) ?_ ?_
+          refine ⟨_, (false, fr'.maxTu), Rev.mk rev.val rev.tu s0.epoch fr'.rdeps.reverse, rfl, ?_, ?_, hval', ?_⟩
+          · refine hinst _ (Rev.mk rev.val rev.tu s0.epoch fr'.rdeps.reverse) hst0 rfl rfl rfl ?_ ?_
               (by rw [hval']; exact hnode _)
             · intro n' r' hne hn'
-              simp only [regDep, hst0] at hn'
               rw [alookup_ainsert_ne _ _ _ _ (Ne.symm hne), alookup_ainsert_ne _ _ _ _ (Ne.symm hne)] at hn'; exact hn'
-            · simp only [regDep, hst0]; exact alookup_ainsert_self _ _ _
-          · simp only [regDep, hst0]; exact alookup_ainsert_self _ _ _
-          · simp [regDep, hst0]
+            · exact alookup_ainsert_self _ _ _
+          · exact alookup_ainsert_self _ _ _
+          · exact ⟨rfl, rfl, rfl, rfl, rfl⟩
 
 theorem exec_flat {P : Prog} (hflat : Flat P) (c : NodeId → Res Nat) (n : Nat) (s : Storage) (id : NodeId) (v : Nat)
     (hinv : Inv1 P s) (hv : evalP c P s.srcs s.maps (fnOf P id.fn).body id.arg = .ok v) :
     ∃ s' b r, exec (n + 1) P s id = (s', .ok b) ∧ Inv1 P s' ∧ alookup s'.derived id = some r ∧ r.val = v ∧
       s'.epoch = s.epoch ∧ s'.srcs = s.srcs ∧ s'.maps = s.maps ∧ s'.poisoned = s.poisoned ∧ r.tv = s'.epoch := by
-  rw [exec_succ]
   have hp : pushTop s id = { s with topCalls := s.topCalls ++ [id], pushes := s.pushes ++ [id] } := by
     simp [pushTop, hinv.stack]
-  rw [hp]
-  exact execBody_flat hflat c n _ id v (hinv.congr hinv.stack rfl rfl rfl rfl) hv
-
+  obtain ⟨s', b, r, he, hinv', hl, hval, h1, h2, h3, h4, h5⟩ :=
+    upToDate_flat hflat c n { s with topCalls := s.topCalls ++ [id], pushes := s.pushes ++ [id] } id v
+      (hinv.congr hinv.stack rfl rfl rfl rfl) hv
+  have hreg : regDep s' (.derived id) b.2 = s' := by simp [regDep, hinv'.stack]
+  refine ⟨s', b.1, r, ?_, hinv', hl, hval, h1, h2, h3, h4, h5⟩
+  show execF (upToDate (n + 1) P) s id = _
+  unfold execF
+  rw [hp, he]
+  simp only [hreg]
 
 /-! ## source operations -/
 
